@@ -5,6 +5,7 @@ package column
 
 import (
 	"io"
+	"sync"
 	"time"
 
 	"github.com/kelindar/bitmap"
@@ -318,10 +319,13 @@ func vLemmaApplyString(chs chunks[string], chunk commit.Chunk, buf []byte, last 
 	switch sel {
 	case 0:
 		vAssert("put", vBit(fill, o) && len(data[o]) == len(v) && vForall(0, len(v), func(i int) bool { return data[o][i] == v[i] }))
+		vAssert("put-stores-a-private-copy", vStringSeparate(data[o], commit.VBytes(b)))
 	case 1:
 		vAssert("merge-sets-presence", vBit(fill, o))
-		vAssert("merge-present", !vBit(oldFill, o) || vSame(data[o], expected))
-		vAssert("merge-absent", vBit(oldFill, o) || len(oldData[o]) != 0 || vSame(data[o], expectedAbsent) || vSame(data[o], expected))
+		// (the delta handed to the merge function lives in the pooled transaction buffer: whatever comes back is copied)
+		vAssert("merge-stores-a-private-copy", vStringSeparate(data[o], commit.VBytes(b)))
+		vAssert("merge-present", !vBit(oldFill, o) || data[o] == expected)
+		vAssert("merge-absent", vBit(oldFill, o) || len(oldData[o]) != 0 || data[o] == expectedAbsent || data[o] == expected)
 	case 2:
 		vAssert("delete", !vBit(fill, o) && len(data[o]) == 0)
 	default:
@@ -573,6 +577,36 @@ func vLemmaCommitEmits(owner *Collection, updates []*commit.Buffer, dirty []uint
 		vAssert("updated-one-emission", vLogCount == 1)
 	} else {
 		vAssert("nothing-applied-no-emission", vLogCount == 0)
+	}
+	vAssert("released", vNothingHeld())
+}
+
+// While a snapshot is in progress (C08): every commit that changes a block - rows (markers only: a pure delete or an
+// insert that sets no column) or column updates - is appended to the snapshot's recorder inside the block's latch,
+// with the id stored for the block and the transaction's buffers; exactly when the change stream gets it.
+//
+//@ lemma props=C08,C15 mode=paths real=column.(*Txn).commit
+func vLemmaCommitRecords(owner *Collection, updates []*commit.Buffer, dirty []uint64, rec *commit.Log) {
+	vAssume(owner != nil && owner.slock != nil && vNothingHeld() && rec != nil)
+	vAssume(vForall(0, len(updates), func(i int) bool { return updates[i] != nil }))
+	vAssume(len(owner.commits) < 1<<20 && vForall(0, len(owner.commits), func(k int) bool { return owner.commits[k] <= vNextID }))
+	vAssume(len(owner.fill) < 1<<25 && vDistinctBacking(dirty, owner.commits) && vDistinctBacking(dirty, owner.fill))
+	owner.record = rec
+	lg := &vLogger{owner: owner}
+	txn := &Txn{owner: owner, updates: updates, dirty: dirty, logger: lg, reader: commit.NewReader()}
+	vCol = owner
+	vLogCount, vRecCount = 0, 0
+	before := vNextID
+	vLastUpdated, vLastChanged = false, false
+	txn.commit()
+	visited := vNextID != before // the Range model visits at most one (arbitrary) dirty block
+	if visited && (vLastChanged || vLastUpdated) {
+		vAssert("recorded-once-whether-rows-or-values-changed", vRecCount == 1)
+		vAssert("recorded-with-the-block's-stored-id-and-the-transaction's-buffers", int(vRecLastChk) < len(owner.commits) &&
+			owner.commits[vRecLastChk] == vRecLastID && vRecUpdates == len(updates))
+		vAssert("recorded-what-is-emitted", vLogCount == 1 && vLogLastID == vRecLastID && vLogLastChk == vRecLastChk)
+	} else {
+		vAssert("nothing-applied-nothing-recorded", vRecCount == 0)
 	}
 	vAssert("released", vNothingHeld())
 }
@@ -950,7 +984,7 @@ func vLemmaVacuumStep(chs chunks[int64], idx uint32, nowNanos int64) {
 //@ lemma props=C17
 func vLemmaTTLAccessors(chs chunks[int64], idx uint32, ttlIn int64, buf []byte, last int32, cur commit.Chunk) {
 	vAssume(vForall(0, len(chs), func(k int) bool { return len(chs[k].fill) == chunkSize/64 && len(chs[k].data) == chunkSize }))
-	vAssume(0 <= vNow && vNow < 1<<61 && ttlIn < 1<<61 && ttlIn > -(1 << 61) && idx < 1<<31 && last >= 0)
+	vAssume(0 <= vNow && vNow < 1<<61 && ttlIn < 1<<61 && ttlIn > -(1<<61) && idx < 1<<31 && last >= 0)
 	col := &numericColumn[int64]{chunks: chs}
 	txn := &Txn{cursor: idx}
 	b := commit.VBuffer(buf, last, cur)
@@ -1099,7 +1133,7 @@ func vLemmaSnapshotInt32(chs chunks[int32], chunk commit.Chunk, buf []byte, last
 	})
 }
 
-//@ lemma props=C07,C03,C16
+//@ lemma props=C07,C03,C16 mode=paths
 func vLemmaSnapshotFloat64(chs chunks[float64], chunk commit.Chunk, buf []byte, last int32, cur commit.Chunk) {
 	vAssume(int(chunk) < len(chs) && chunk < 1<<17 && len(chs[chunk].fill) == chunkSize/64 && len(chs[chunk].data) == chunkSize)
 	col := makeFloat64s().(*numericColumn[float64])
@@ -1181,8 +1215,19 @@ func vContractColumnSnapshotGhost(c *column, chunk commit.Chunk, dst *commit.Buf
 	if ok {
 		vDidSnapshotOK++
 	}
+	vSnapshotCalls++
+	vSnapshotCol, vSnapshotChunk, vSnapshotDst, vSnapshotOK = c, chunk, dst, ok
 	return
 }
+
+// ghost: the last column.Snapshot call
+var (
+	vSnapshotCalls int
+	vSnapshotCol   *column
+	vSnapshotChunk commit.Chunk
+	vSnapshotDst   *commit.Buffer
+	vSnapshotOK    bool
+)
 
 //@ lemma props=C07,C03 real=column.(*column).Snapshot
 func vLemmaColumnSnapshotWrapper(col *column, chunk commit.Chunk, dst *commit.Buffer) {
@@ -1744,9 +1789,11 @@ var (
 //@ contract target=column.(*column).Apply use verify=no
 func vContractColumnApplyGhost(c *column, chunk commit.Chunk, r *commit.Reader) {
 	c.Apply(chunk, r)
-	vAssume(vColApplyCalls < 4)
-	vColApplyPass[vColApplyCalls], vColApplyOf[vColApplyCalls] = vRangePasses, c
+	if 0 <= vColApplyCalls && vColApplyCalls < 4 {
+		vColApplyPass[vColApplyCalls], vColApplyOf[vColApplyCalls] = vRangePasses, c
+	}
 	vColApplyCalls++
+	vColApplyLast = c
 	vColApplyChunk, vColApplyReader, vColApplyMutex = chunk, r, vColW
 }
 
@@ -1962,4 +2009,235 @@ func vLemmaDropIndex(c *Collection, name string) {
 	vLoadSortIndex = false
 	vRegSeq, vLoadCalls, vDeleteIndexAt, vDeleteColumnAt = 0, 0, 0, 0
 	vDropped(c.DropIndex(name), name)
+}
+
+// ---------------------------------------------------------------------------------------------
+// readState, the part around the per-block step (C07, C13): a stream whose version token is not 1, or whose header
+// cannot be read, is rejected before anything is applied; otherwise one transaction per block runs the block step
+// (vLemmaReadStateStep) with the number of buffers per block taken from the header, and the first error - of a read
+// or of a block's transaction - ends the restore and is returned; nil is returned only if no read failed.
+
+var (
+	vQueries  int
+	vQueryErr error
+)
+
+// ghost observer of Collection.Query (its own lemma: vLemmaQuery), switched on where a lemma asks for it
+//
+//@ contract target=column.(*Collection).Query optin verify=no
+func vContractQueryGhost(c *Collection, fn func(txn *Txn) error) (err error) {
+	err = c.Query(fn)
+	vQueries++
+	vQueryErr = err
+	return
+}
+
+//@ lemma props=C07,C13 mode=paths real=column.(*Collection).readState use=column.(*Collection).Query
+func vLemmaReadState(c *Collection, src io.Reader, streamErr error) {
+	vAssume(c != nil && streamErr != nil && vNothingHeld())
+	commit.VResetStream(streamErr)
+	vQueries = 0
+	_, err := c.readState(src)
+	vAssert("read-failure-is-an-error", !commit.VReadFailed() || err != nil)
+	if commit.VUvarints() >= 1 && commit.VUvarint(0) != 1 {
+		vAssert("other-version-rejected-before-anything-is-applied", err != nil && vQueries == 0)
+	}
+	if commit.VUvarints() < 2 {
+		vAssert("unreadable-header-applies-nothing", err != nil && vQueries == 0)
+	}
+	if vQueries > 0 {
+		vAssert("one-transaction-per-block-and-its-error-is-returned", vQueries == 1 && err == vQueryErr)
+	}
+}
+
+// ---------------------------------------------------------------------------------------------
+// CreateIndex / CreateSortIndex (C03, C16): the computed column is registered under its own name and attached to the
+// column it watches under the collection mutex BEFORE the back-fill starts (so that commits applied from then on feed
+// it), and the back-fill visits every block below Collection.chunks() once, in order: the watched column's snapshot
+// of the block (vLemmaSnapshot*: one put per present cell with its absolute offset and value) is applied to the new
+// column (vLemmaApplyIndex / vLemmaApplySortIndex) from the start of the buffer, for that same block.
+
+var (
+	vStoreCalls   int
+	vStoreMutex   bool
+	vStoreName    [2]string
+	vStoreMain    [2]*column
+	vStoreIndexes [2]int
+	vStoreIndex0  [2]*column
+)
+
+//@ model column.(*columns).Store
+func vModelColumnsStore(c *columns, columnName string, main *column, index ...*column) {
+	vAssume(vStoreCalls < 2)
+	vStoreName[vStoreCalls], vStoreMain[vStoreCalls], vStoreIndexes[vStoreCalls] = columnName, main, len(index)
+	if len(index) > 0 {
+		vStoreIndex0[vStoreCalls] = index[0]
+	}
+	vStoreMutex = vColW
+	vStoreCalls++
+}
+
+func vBackfillStep(chunk commit.Chunk, watched *column, snaps, applies int) {
+	vStep("block-snapshotted-once", vSnapshotCalls == snaps+1)
+	vStep("snapshot-of-the-watched-column", vSnapshotCol == watched)
+	vStep("snapshot-of-this-block", vSnapshotChunk == chunk)
+	if vSnapshotOK {
+		vStep("snapshot-applied-to-the-new-column-for-the-same-block", vColApplyCalls == applies+1 && vColApplyChunk == chunk && vColApplyLast == vStoreMain[0])
+		vStep("applied-from-the-start-of-the-snapshot-buffer", vColApplyReader != nil && commit.VReaderOn(vColApplyReader, vSnapshotDst))
+	} else {
+		vStep("nothing-applied-for-a-skipped-block", vColApplyCalls == applies)
+	}
+}
+
+//@ loop target=column.(*Collection).CreateIndex index=0 props=C03
+func vLoopCreateIndexBackfill(chunk commit.Chunk, chunks int, column *column) {
+	vInvariant(0 <= int(chunk) && (int(chunk) <= chunks || chunks < 0) && chunks <= 1<<17 && vSnapshotCalls == int(chunk) && vColApplyCalls <= vSnapshotCalls && vNothingHeld())
+	snaps, applies, block := vSnapshotCalls, vColApplyCalls, vKeep(chunk) // (after vBody the parameters carry the next iteration's values)
+	vBody()
+	vBackfillStep(block, column, snaps, applies)
+}
+
+//@ loop target=column.(*Collection).CreateSortIndex index=0 props=C16
+func vLoopCreateSortIndexBackfill(chunk commit.Chunk, chunks int, column *column) {
+	vInvariant(0 <= int(chunk) && (int(chunk) <= chunks || chunks < 0) && chunks <= 1<<17 && vSnapshotCalls == int(chunk) && vColApplyCalls <= vSnapshotCalls && vNothingHeld())
+	snaps, applies, block := vSnapshotCalls, vColApplyCalls, vKeep(chunk) // (after vBody the parameters carry the next iteration's values)
+	vBody()
+	vBackfillStep(block, column, snaps, applies)
+}
+
+func vCreated(c *Collection, err error, indexName, columnName string) {
+	if err == nil {
+		vAssert("registered-under-its-name-then-attached-to-the-watched-column", vStoreCalls == 2 &&
+			vStoreName[0] == indexName && vStoreMain[0] != nil && vStoreIndexes[0] == 0 &&
+			vStoreName[1] == columnName && vStoreMain[1] == vLoadFirst && vStoreIndexes[1] == 1 && vStoreIndex0[1] == vStoreMain[0])
+		vAssert("registered-under-the-collection-mutex", vStoreMutex)
+		vAssert("back-fill-covers-every-block", vSnapshotCalls == vMaxInt(vChunksResult, 0))
+	} else {
+		vAssert("failure-registers-nothing", vStoreCalls == 0 && vSnapshotCalls == 0)
+	}
+	vAssert("released", vNothingHeld())
+}
+
+//@ lemma props=C03 use=column.(*Collection).chunks
+func vLemmaCreateIndex(c *Collection, indexName, columnName string, fn func(r Reader) bool) {
+	vAssume(c != nil && vNothingHeld())
+	vCol = c
+	vLoadSortIndex = false
+	vStoreCalls, vSnapshotCalls, vColApplyCalls, vLoadCalls = 0, 0, 0, 0
+	vCreated(c, c.CreateIndex(indexName, columnName, fn), indexName, columnName)
+}
+
+//@ lemma props=C16 use=column.(*Collection).chunks
+func vLemmaCreateSortIndex(c *Collection, indexName, columnName string) {
+	vAssume(c != nil && vNothingHeld())
+	vCol = c
+	vLoadSortIndex = false
+	vStoreCalls, vSnapshotCalls, vColApplyCalls, vLoadCalls = 0, 0, 0, 0
+	vCreated(c, c.CreateSortIndex(indexName, columnName), indexName, columnName)
+}
+
+// ---------------------------------------------------------------------------------------------
+// WithUnion on a query that has filters already (C04): per block of the selection, under that block's read latch, a
+// scratch bitmap is cleared, every existing named index's bitmap OF THAT BLOCK is OR-ed into it once, and the block's
+// window of the selection is AND-ed with it once; missing names contribute nothing (the empty set).
+
+//@ loop target=column.(*Txn).WithUnion index=0 props=C04
+func vLoopWithUnionCollect(rangeindex int, columns []string, cols []*column) {
+	vInvariant(-1 <= rangeindex && rangeindex < len(columns) && len(cols) <= rangeindex+1 && vColumnAtN == rangeindex+1 && vNothingHeld() &&
+		vForall(0, len(cols), func(i int) bool { return cols[i] != nil }))
+	vBody()
+}
+
+//@ loop target=column.(*Txn).WithUnion index=1 props=C04,C10
+func vLoopWithUnionBlocks(txn *Txn, chunk, limit commit.Chunk, cols []*column, tmpMap bitmap.Bitmap) {
+	vInvariant(chunk <= limit+1 && limit < 1<<20 && len(tmpMap) == 256 && vNothingHeld() && vRLatches == int(chunk) &&
+		vForall(0, len(cols), func(i int) bool { return cols[i] != nil }))
+	block := vKeep(chunk)
+	vBody()
+	vStep("block-latched-for-reading", vLastRLatch == uint(block))
+	vStep("every-existing-index-or-ed-once", vOrsSinceLatch == len(cols))
+	vStep("selection-window-of-the-block-intersected-once-under-the-latch", vAndsSinceLatch == 1 && vAndLatched &&
+		vSameSlice(vAndDst, block.OfBitmap(txn.index)) && vSameSlice(vAndSrc, tmpMap))
+}
+
+//@ loop target=column.(*Txn).WithUnion index=2 props=C04
+func vLoopWithUnionClear(rangeindex int, tmpMap bitmap.Bitmap, chunk commit.Chunk) {
+	vInvariant(-1 <= rangeindex)
+	vInvariant(rangeindex < len(tmpMap))
+	vInvariant(len(tmpMap) == 256)
+	vInvariant(vOrsSinceLatch == 0 && vAndsSinceLatch == 0)
+	vInvariant(vLastRLatch == uint(chunk))
+	vInvariant(vLatchR[uint(chunk)%128] == 1)
+	vInvariant(vColR == 0 && !vColW && vOtherW == 0)
+	vInvariant(vForall(0, rangeindex+1, func(i int) bool { return tmpMap[i] == 0 }))
+	vBody()
+}
+
+//@ loop target=column.(*Txn).WithUnion index=3 props=C04
+func vLoopWithUnionOr(rangeindex int, cols []*column, tmpMap bitmap.Bitmap, chunk commit.Chunk) {
+	vInvariant(-1 <= rangeindex && rangeindex < len(cols) && len(tmpMap) == 256 && vOrsSinceLatch == rangeindex+1 && vAndsSinceLatch == 0 &&
+		vLastRLatch == uint(chunk) && vLatchR[uint(chunk)%128] == 1 && vColR == 0 && !vColW && vOtherW == 0 &&
+		vForall(0, len(cols), func(i int) bool { return cols[i] != nil }))
+	vBody()
+	vStep("or-of-this-block's-index-into-the-scratch-bitmap", vLastIndexChunk == chunk && vSameSlice(vOrSrc, vLastIndexOf) && vSameSlice(vOrDst, tmpMap))
+}
+
+//@ lemma props=C04,C10,C18
+func vLemmaWithUnion(owner *Collection, index []uint64, a, b string) {
+	vAssume(owner != nil && owner.slock != nil && vNothingHeld() && len(index) <= 1<<25)
+	vCol = owner
+	txn := &Txn{owner: owner, setup: true, index: index}
+	vColumnAtN, vRLatches = 0, 0
+	txn.WithUnion(a, b)
+	vAssert("each-name-looked-up-once", vColumnAtN == 2)
+	vAssert("every-block-of-the-selection-visited", vRLatches == len(index)>>bitmapShift+1)
+	vAssert("released", vNothingHeld())
+}
+
+// ---------------------------------------------------------------------------------------------
+// readChunk (C08, C18): a snapshot serialises a block holding BOTH the block's read latch (no commit is applied to
+// the block meanwhile) and the collection mutex (no insert reserves or frees an offset in the fill list it iterates);
+// the delegate gets the id stored for the block (0 for a block without commits yet), the block and the block's window
+// of the fill list; its error is returned; nothing is held afterwards.
+
+//@ lemma props=C08,C18,C07
+func vLemmaReadChunk(c *Collection, chunk commit.Chunk, cbErr error) {
+	vAssume(c != nil && c.slock != nil && vNothingHeld() && len(c.fill) <= 1<<25 && len(c.commits) < 1<<20)
+	vCol = c
+	calls := 0
+	err := c.readChunk(chunk, func(id uint64, ch commit.Chunk, fill bitmap.Bitmap) error {
+		calls++
+		vAssert("block-read-latch-held", vLatchR[uint(chunk)%128] == 1)
+		vAssert("collection-mutex-held-while-the-fill-list-is-read", vColW)
+		vAssert("stored-id-of-the-block", ch == chunk && ((int(chunk) < len(c.commits) && id == c.commits[chunk]) || (int(chunk) >= len(c.commits) && id == 0)))
+		vAssert("fill-window-of-the-block", vSameSlice(fill, chunk.OfBitmap(c.fill)))
+		return cbErr
+	})
+	vAssert("called-once-and-its-error-returned", calls == 1 && err == cbErr)
+	vAssert("released", vNothingHeld())
+}
+
+// ---------------------------------------------------------------------------------------------
+// The merge function of a record column (C09): columns are applied under the column's READ lock, so commits to
+// different blocks run it concurrently; it is re-entrant because every call decodes into two records it takes from the
+// pool for the duration of the call (and returns), never into state shared between calls.
+
+type vRec struct{ n uint64 }
+
+func (r *vRec) MarshalBinary() ([]byte, error) { return vNondet[[]byte](), vNondet[error]() }
+func (r *vRec) UnmarshalBinary(b []byte) error {
+	r.n = vNondet[uint64]()
+	return vNondet[error]()
+}
+
+var _ = ForRecord[*vRec] // instantiates the generic body
+
+//@ lemma props=C09,C18
+func vLemmaRecordMergeOwnsItsDecodeTargets(merge func(value, delta *vRec) *vRec, v, d string) {
+	vAssume(merge != nil)
+	pool := &sync.Pool{New: func() any { return &vRec{} }}
+	vPoolGets, vPoolPuts = 0, 0
+	vCallAnon("column.ForRecord[*vRec]$3", []any{"pool", &pool, "mergeFunc", &merge}, v, d)
+	vAssert("both-decode-targets-taken-from-the-pool-for-this-call", vPoolGets == 2)
+	vAssert("and-returned-to-it", vPoolPuts == 2)
 }
